@@ -161,6 +161,15 @@ TraceNext ==
        [] ev.ev = "asmfail" ->
             /\ Verdict([l |-> l, ev |-> "asmfail", kind |-> "ASMFAIL", dev |-> "", why |-> ev.err])
             /\ UNCHANGED st
+       \* a line the assembler emitted was refused by the parser it is destined for (C10)
+       [] ev.ev = "downstream" ->
+            /\ Verdict([l |-> l, ev |-> "downstream", kind |-> "MISMATCH", dev |-> "", why |-> <<ev.kind, ev.err>>])
+            /\ UNCHANGED st
+       \* two spellings of one syntax tree must emit the same instruction list (C11)
+       [] ev.ev = "spelling" ->
+            /\ (IF ev.same THEN TRUE
+                ELSE Verdict([l |-> l, ev |-> "spelling", kind |-> "MISMATCH", dev |-> "", why |-> ev.lists]))
+            /\ UNCHANGED st
        \* a REP line still answered REPEAT after CX + 3 invocations
        [] ev.ev = "nonterminating" ->
             /\ Verdict([l |-> l, ev |-> "nonterminating", kind |-> "MISMATCH", dev |-> "", why |-> ev.invocations])
